@@ -92,6 +92,12 @@ def rehashLoop2 (P : Params) : Nat → Nat → Tb → Tb
 
 def rehash (P : Params) (t : Tb) : Tb := rehashLoop2 P (size t) 0 (rehashLoop1 P (size t) 0 t)
 
+/-- seeded change C04-r6-1, kept for the counter-example only: the second pass is skipped when the last slot is free after
+    the first pass ("a chain can only wrap around through the last slot") -/
+def rehashLastSlotGuard (P : Params) (t : Tb) : Tb :=
+  let t1 := rehashLoop1 P (size t) 0 t
+  if get t1 (size t - 1) = 0 then t1 else rehashLoop2 P (size t) 0 t1
+
 inductive ResizeV | full | oldOnly
 deriving DecidableEq, Repr
 
